@@ -113,6 +113,7 @@ type timerEnt struct {
 type sched struct {
 	active   bool
 	aborting bool
+	inPseudo bool // an environment event (pseudo thread) is being executed inline
 	cur      *thread
 	threads  []*thread
 	cfg      Config
@@ -289,6 +290,15 @@ func Point(kind Kind, obj string, ready func() bool) {
 	if !s.active || s.aborting {
 		return
 	}
+	if s.inPseudo {
+		// an environment event is atomic: its operations are no scheduling points and must not touch the
+		// bookkeeping of the thread in whose context the scheduler happens to run it
+		if ready != nil && !ready() {
+			panic("vsched: environment event would block at " + kind.String() + " " + obj)
+		}
+		s.steps++
+		return
+	}
 	t := s.cur
 	t.kind, t.obj, t.ready = kind, obj, ready
 	// fast path: non-candidate kind and enabled -> continue without a decision
@@ -439,7 +449,11 @@ func (s *sched) pick(from *thread) *thread {
 			if t.oneShot {
 				t.finished = true
 			}
-			t.pseudo()
+			func() {
+				s.inPseudo = true
+				defer func() { s.inPseudo = false }()
+				t.pseudo()
+			}()
 			continue
 		}
 		s.step(t)
